@@ -119,8 +119,20 @@ func main() {
 			if panicked.Load() > 0 {
 				report("%s round %d: %d AtomicCreate call(s) panicked", scenario, r, panicked.Load())
 			}
+			// the calls have returned: the buffers are the callers' again, and they reuse them
+			wantA, wantB := append([]byte(nil), A...), append([]byte(nil), B...)
+			for i := range A {
+				A[i] = 'z'
+			}
+			for i := range B {
+				B[i] = 'y'
+			}
+			A, B = wantA, wantB
 			fa, _ := readAll(fs, ta.dir, ta.name)
 			fb, _ := readAll(fs, tb.dir, tb.name)
+			if len(fa) > 0 && fa[0] == 'z' || len(fb) > 0 && fb[0] == 'y' {
+				report("%s round %d: the file changed when the caller reused the buffer it had passed to AtomicCreate (after the call returned)", scenario, r)
+			}
 			if ta != tb {
 				if !bytes.Equal(fa, A) || !bytes.Equal(fb, B) {
 					report("%s round %d: final contents %d/%d bytes differ from the data written (%d/%d)", scenario, r, len(fa), len(fb), len(A), len(B))
